@@ -3,6 +3,8 @@ package gen
 import (
 	"math"
 
+	"verif/harness/spec"
+	"verif/harness/units"
 	"verif/harness/val"
 )
 
@@ -94,3 +96,50 @@ func Catalogue(native bool) []val.V {
 	}
 	return out
 }
+
+// GridSpecs is a fixed set of small schemas covering every type kind (and the main variants of each).
+func GridSpecs() []*spec.Spec {
+	p := func(x int64) *int64 { return &x }
+	secs := units.BuiltinDef("seconds")
+	bytes := units.BuiltinDef("bytes")
+	str := &spec.Spec{Kind: spec.KString}
+	integer := &spec.Spec{Kind: spec.KInt}
+	anyT := &spec.Spec{Kind: spec.KAny}
+	objMap := &spec.Spec{Kind: spec.KObject, ID: "O", Props: []spec.Prop{
+		{Name: "a", Type: anyT}, {Name: "p0", Type: integer, Required: true}, {Name: "p1", Type: str, Default: spec.P(`"d"`)}, {Name: "k", Type: &spec.Spec{Kind: spec.KList, Items: anyT}}}}
+	leafProps := []spec.Prop{{Name: "a", Type: anyT}, {Name: "i", Type: integer}, {Name: "s", Type: str}, {Name: "pi", Type: integer}, {Name: "li", Type: &spec.Spec{Kind: spec.KList, Items: integer}},
+		{Name: "mo", Type: &spec.Spec{Kind: spec.KMap, Keys: str, Values: anyT}}}
+	memA := &spec.Spec{Kind: spec.KObject, ID: "A", Props: []spec.Prop{{Name: "a", Type: anyT}, {Name: "p0", Type: integer}}}
+	memB := &spec.Spec{Kind: spec.KObject, ID: "B", Props: []spec.Prop{{Name: "a", Type: str}}}
+	altA := &spec.Spec{Kind: spec.KObject, ID: "AltA", Struct: "AltA", Props: []spec.Prop{{Name: "a", Type: integer}, {Name: "k", Type: str}}}
+	altB := &spec.Spec{Kind: spec.KObject, ID: "AltB", Struct: "*AltB", Props: []spec.Prop{{Name: "b", Type: str}, {Name: "k", Type: str}}}
+	node := &spec.Spec{Kind: spec.KObject, ID: "Node", Props: []spec.Prop{{Name: "v", Type: integer}, {Name: "next", Type: &spec.Spec{Kind: spec.KRef, RefID: "Node"}},
+		{Name: "kids", Type: &spec.Spec{Kind: spec.KList, Items: &spec.Spec{Kind: spec.KRef, RefID: "Node"}}}, {Name: "a", Type: anyT}}}
+	return []*spec.Spec{
+		integer,
+		{Kind: spec.KInt, Min: p(0), Max: p(100), Units: &secs},
+		{Kind: spec.KFloat},
+		{Kind: spec.KFloat, FMin: spec.P(0.0), Units: &bytes},
+		str,
+		{Kind: spec.KString, Min: p(1), Max: p(3), Pattern: spec.P("^[a-z0-9]+$")},
+		{Kind: spec.KBool},
+		{Kind: spec.KPattern},
+		{Kind: spec.KEnumS, Enum: []spec.EnumVal{{S: "a"}, {S: "1"}, {S: ""}}},
+		{Kind: spec.KEnumI, Enum: []spec.EnumVal{{I: 0}, {I: 1}, {I: 60}}, Units: &secs},
+		{Kind: spec.KTypedEnumS, Enum: []spec.EnumVal{{S: "a"}, {S: "b"}}},
+		{Kind: spec.KList, Items: anyT},
+		{Kind: spec.KList, Items: integer, Min: p(1), Max: p(2)},
+		{Kind: spec.KMap, Keys: str, Values: anyT},
+		{Kind: spec.KMap, Keys: integer, Values: str, Min: p(1)},
+		{Kind: spec.KMap, Keys: &spec.Spec{Kind: spec.KEnumS, Enum: []spec.EnumVal{{S: "a"}, {S: "p0"}}}, Values: &spec.Spec{Kind: spec.KList, Items: anyT}},
+		anyT,
+		objMap,
+		{Kind: spec.KObject, ID: "L", Struct: "*Leaf", Props: leafProps},
+		{Kind: spec.KObject, ID: "L", Struct: "Leaf", Props: leafProps},
+		{Kind: spec.KOneOfS, Discriminator: "_type", Members: []spec.Member{{KeyS: "a", Type: memA}, {KeyS: "1", Type: memB}}},
+		{Kind: spec.KOneOfS, Discriminator: "k", Inlined: true, Members: []spec.Member{{KeyS: "a", Type: altA}, {KeyS: "b", Type: altB}}},
+		{Kind: spec.KOneOfI, Discriminator: "_type", Members: []spec.Member{{KeyI: 1, Type: memA}, {KeyI: 2, Type: memB}}},
+		{Kind: spec.KScope, Root: "Node", Objects: []*spec.Spec{node}},
+	}
+}
+
